@@ -57,6 +57,45 @@ def viol18Step (env : Env) (pre post : Sim) : List String :=
           else [s!"C18/overtaken-unusable-plug| vehicle {q'.id} queues at station {s} for plug {c} which it cannot use and is overtaken by vehicle {q.id}"]
         else []
 
+/-- observed queue membership: vehicle, station, plug, the clock of the first state in which the
+    vehicle was seen waiting there (kept by the driver along a history) -/
+abbrev Joined := List (VehicleId × StationId × ChargerId × Int)
+
+/-- bring the observed queue membership up to date with a state of the history -/
+def Joined.update (j : Joined) (s : Sim) : Joined :=
+  s.vehicles.filterMap fun v =>
+    match v.act with
+    | .chargeQueueing st c _ =>
+      match j.find? (fun e => e.1 == v.id && e.2.1 == st && e.2.2.1 == c) with
+      | some e => some e
+      | none => some (v.id, st, c, s.time)
+    | _ => none
+
+/-- C18 on one update phase, judged by *observed* arrival in the queue (the step in which the
+    vehicle was first seen waiting, ties by id) instead of the `enqueue_time` field the
+    implementation keeps: nobody who arrived strictly earlier is left waiting while a later one
+    starts charging -/
+def viol18Observed (env : Env) (j : Joined) (pre post : Sim) : List String :=
+  let queued := j.filter fun e => match pre.vehicle? e.1 with
+    | some v => (match v.act with | .chargeQueueing s c _ => s == e.2.1 && c == e.2.2.1 | _ => false)
+    | none => false
+  queued.flatMap fun (q, s, c, t) =>
+    let charging := match post.vehicle? q with
+      | some v' => (match v'.act with | .chargingStation s' c' => s' == s && c' == c | _ => false)
+      | none => false
+    if !charging then [] else
+      queued.flatMap fun (q', s', c', t') =>
+        let earlier := s' == s && c' == c && (t' < t || (t' == t && q' < q))
+        let stillQueued := match post.vehicle? q' with
+          | some v' => (match v'.act with | .chargeQueueing s2 c2 _ => s2 == s && c2 == c | _ => false)
+          | none => false
+        let usable := match pre.vehicle? q', (pre.station? s).bind (·.plug? c) with
+          | some v', some cs => env.validCharger v' cs && !env.isFull v'
+          | _, _ => false
+        if earlier && stillQueued && usable then
+          [s!"C18/overtaken-observed| vehicle {q} (seen waiting since {t}) started charging at station {s} plug {c} while vehicle {q'} (seen waiting since {t'}) is left waiting"]
+        else []
+
 /-- all state monitors -/
 def monitorAll (env : Env) (s : Sim) : List String :=
   viol02 s ++ viol07 s ++ viol08 env.parent s ++ viol10 s ++ viol17 s
@@ -91,6 +130,22 @@ def viol04Move (isEmpty : Vehicle → Bool) (pre post : Sim) : List String :=
       if isEmpty v && (v.odo > p.odo || v.pos != p.pos) then
         [s!"C04/moved-on-empty| vehicle {v.id} moved {Val.show (.q (v.odo - p.odo))} km in a step that left it without energy (level {Val.show (.q v.en.level)}); it should have gone out of service instead of moving"]
       else []
+
+/-- C19 per phase: per vehicle the move events of the phase sum to the odometer's advance and
+    the charge events to the energy gained -/
+def viol19Step (pre post : Sim) (evs : List Event) : List String :=
+  post.vehicles.flatMap fun v =>
+    match pre.vehicle? v.id with
+    | none => []
+    | some p =>
+      let km := sumQ (evs.map fun e => match e with | .move v' k _ => if v' == v.id then k else 0 | _ => 0)
+      let en := sumQ (evs.map fun e => match e with | .charge v' _ _ a _ => if v' == v.id then a else 0 | _ => 0)
+      let dOdo := v.odo - p.odo
+      let dGain := v.en.gained - p.en.gained
+      (if ratAbs (km - dOdo) ≤ absTol (max (ratAbs km) (ratAbs dOdo)) then [] else
+        [s!"C19/odometer| vehicle {v.id}: the phase's move events sum to {Val.show (.q km)} km, the odometer advanced by {Val.show (.q dOdo)} km"]) ++
+      (if ratAbs (en - dGain) ≤ absTol (max (ratAbs en) (ratAbs dGain)) then [] else
+        [s!"C19/energy-gained| vehicle {v.id}: the phase's charge events sum to {Val.show (.q en)}, the vehicle gained {Val.show (.q dGain)}"])
 
 /-- C05 per phase: energy gained by vehicles = energy dispensed by stations (per type);
     money paid by vehicles for charging = money received by stations; each charge event is priced
